@@ -282,9 +282,23 @@ func TestVerifC12(t *testing.T) {
 					srch.Close()
 				}
 			}
-			if sig == "" {
+			// Finish installs by renaming every new file and only then removing the superseded
+			// ones. Only crash states consistent with that order belong to the known family.
+			perfRen, perfRem := 0, 0
+			for _, m := range sess.Log {
+				if m.Done && m.Op == "rename" {
+					perfRen++
+				}
+				if m.Done && m.Op == "remove" {
+					perfRem++
+				}
+			}
+			switch {
+			case sig == "":
 				kind += " before the install phase"
-			} else {
+			case perfRem > 0 && perfRen < nRen:
+				kind += " with a superseded file removed before all new files were installed"
+			default:
 				kind += " in the install phase"
 			}
 			r.Violation(fmt.Sprintf("%s %s: %s after [%s]", sc.name, kind, what, sig),
@@ -317,9 +331,10 @@ func TestVerifC12(t *testing.T) {
 					phaseN, j = nRen, nRen
 				}
 				if phaseN > 0 {
-					// Go iterates a small map (one group, <= 8 entries) as a rotation of one fixed
-					// order from a random start, so the reachable prefixes of length j are the (at
-					// most n) cyclic windows, not all C(n,j) subsets.
+					// Go iterates a small map (one group, <= 8 entries) as a rotation of its insertion
+					// order from a random start, so a loop over n entries has about n reachable
+					// prefixes of length j rather than all C(n,j) subsets: repeat the crash point
+					// until min(C(n,j), n) distinct prefixes have been seen (at most 60 times).
 					need = c12Binom(phaseN, j)
 					if need > phaseN {
 						need = phaseN
@@ -384,7 +399,7 @@ func TestVerifC12(t *testing.T) {
 	r.Add("transitions", transitions)
 	r.Add("traces_validated_against_impl", int(r.Evals()))
 	r.Assume("kill model: a killed process leaves exactly the effects of the mutations it already issued (no fsync/power-loss reordering); writes are torn at half-buffer granularity")
-	r.Assume("Parallelism=1 so the mutation log is a total order; map-ordered rename/remove loops are covered by repeating a crash point until every prefix the Go runtime can produce for a small map (every rotation of the iteration order) has occurred")
+	r.Assume("Parallelism=1 so the mutation log is a total order; map-ordered rename/remove loops are covered by repeating a crash point until min(C(n,j), n) distinct prefixes of the loop have occurred (small Go maps iterate as rotations of their insertion order); unseen orders are reported as exhaustive:false")
 	r.Finish("case = scenario (old shard set -> new build, full or delta); for each: crash before every filesystem mutation of the real Builder (vos shim) and every single failing mutation; states = distinct (crash point, set of performed renames/removals); oracle: directory loaded with the real directory searcher shows the repository exactly as before or exactly as after, unrelated repository unchanged, success => new")
 }
 
